@@ -446,7 +446,10 @@ def site_of(bt, flavour):
     # -i lists inlined callers too (builds with debug info), innermost first: the first draco:: function is the site
     for line in out.split("\n")[::2]:
         if line.startswith("draco::"):
-            name = _strip_templates(line.split("(")[0]).replace(" ", "")
+            head = _strip_templates(line.split("(")[0])
+            if " " in head.strip() or "std::" in head:
+                continue        # a std:: member whose return type is a draco type
+            name = head.replace(" ", "")
             if name.startswith(SITE_SKIP):
                 continue        # generic containers: the caller is the site
             return name
@@ -492,13 +495,32 @@ def crash_signature(hout):
     return "crash"
 
 
+def stream_class_detail(data):
+    """stream class for signatures: seq | eb | kd | kd-legacy-int | kd-legacy-float | short"""
+    b = bytes(data)
+    if len(b) < 11:
+        return "short"
+    if b[8] == 0:
+        return "seq"
+    if b[7] == 1:
+        return "eb"
+    if (b[5] << 8 | b[6]) >= 0x0203:
+        return "kd"
+    for f in stream_fields(b):
+        if f.name == "kdlegacy.method":
+            return "kd-legacy-int" if f.value == 1 else "kd-legacy-float"
+    return "kd-legacy"
+
+
 def oracle_crash(hout, case):
     """C02: no abnormal end (sanitizer report = out-of-bounds access / undefined behaviour / assertion, signal on the
     guarded input, watchdog = the call does not return)"""
     if not hout.startswith("CRASH"):
         return None
     sig = crash_signature(hout)
-    what = {"hang": "the decoder did not return within the watchdog time"}.get(sig, "the decoder did not return a Status")
+    if sig == "hang":
+        sig = "hang:" + stream_class_detail(getattr(case, "stream", b""))
+    what = "the decoder did not return within the watchdog time" if sig.startswith("hang") else "the decoder did not return a Status"
     return (sig, f"{what}: {hout[6:400]} for {replay_hint(case)}")
 
 
@@ -644,6 +666,13 @@ KD_QUADRATIC = ("445241434f02030001000002000000011400" + "04ff000000" * 19 + "04
                 "000d000000020000000101000c000000c36c0b34310a1bc00000bc8504000000000000000400000000000000")
 
 
+LEGACY_KD_INNER_COUNT = ("445241434f020200010000640000000101000604000001026400000000000000fcffff7f"
+                         "010100040000000000000004000000000000000400000000000000")
+
+
+LEGACY_KD_FLOAT_INNER_COUNT = "445241434f020200010000010000000101000903000000060100000003000000010800000022e65c44010000000600000009000000ffffff7f01010001010001010001010001010001010001010001010001010001010001010001010001010001010001010001010001010001010001010001010001010001010001010001010001010001010001010001010001010001010001010001010001010004000000c0df53ff04000000000000000400000000000000"
+
+
 def regression_cases(flavour, oracles, kd=True):
     """streams of earlier findings, run first: (1) testdata/cube_att.obj.edgebreaker.cl10.2.2.drc with num_orientations
     (int32 at offset 172) = 2^31-1: before fix 008c24a the portable tex-coord decoder requested 256 MiB for it;
@@ -661,6 +690,13 @@ def regression_cases(flavour, oracles, kd=True):
     if os.path.exists(p):
         out.append(make_case(bytes.fromhex(open(p).read().strip()), "01234", flavour, oracles,
                              ("regression", "tamper:traversal_symbol")))
+    # (4) legacy (2.2) integer kd-tree stream whose payload declares 2^31-4 points for a 100-point cloud: before fix
+    # c9df685 it was accepted after 2^31 loop iterations per decode call (watchdog); it must be rejected promptly
+    out.append(make_case(bytes.fromhex(LEGACY_KD_INNER_COUNT), "01234", flavour, oracles, ("regression", "legacy_kd_inner_count")))
+    # (5) legacy float kd-tree stream (all validated counts 1) whose embedded integer tree declares 2^31-1 points: before
+    # fix 63027a3 the quantized point vector grew without bound; it must be rejected with small allocations
+    out.append(make_case(bytes.fromhex(LEGACY_KD_FLOAT_INNER_COUNT), "01234", flavour, oracles,
+                         ("regression", "legacy_kd_float_inner_count")))
     if kd:
         out.append(make_case(bytes.fromhex(KD_QUADRATIC), "01234", flavour, oracles, ("regression", "kd_quadratic_stacks")))
     return out
@@ -785,6 +821,25 @@ def _bit_section(r, fields, kind, ver, name):
     return o, size
 
 
+def _kd_payload(r, fields, ver, level):
+    """DynamicIntegerPointsKdTreeDecoder<level>::DecodePoints: bit_length, num_points, the bit-coder sections"""
+    _count_field(r, fields, True, "kd.bit_length")
+    _count_field(r, fields, True, "kd.num_points")
+    if level > 6:
+        return
+    if level >= 4:
+        for i in range(33):
+            _bit_section(r, fields, "rans", ver, f"kd.numbers[{i}]")
+    elif level >= 2:
+        _bit_section(r, fields, "rans", ver, "kd.numbers")
+    else:
+        _bit_section(r, fields, "direct", ver, "kd.numbers")
+    _bit_section(r, fields, "direct", ver, "kd.remaining_bits")
+    o, size = _bit_section(r, fields, "direct", ver, "kd.axis")
+    fields.append(Field(o, "nibbles", "kd.axis.words", 0, size))
+    _bit_section(r, fields, "direct", ver, "kd.half")
+
+
 def stream_fields(data, trace=None):
     """list of Field for the parts of `data` whose layout is known; best effort, stops where the layout ends"""
     b = bytes(data)
@@ -813,25 +868,29 @@ def stream_fields(data, trace=None):
                     r.u8()
                 return fields
             if ver < 0x0203:
+                # legacy kd-tree attribute data: method, compression level, a second point count, then the payload of
+                # the integer kd-tree coder (method 1) or of the float points tree (method 0) with its own third count
+                meth = r.b[r.pos]
+                fields.append(Field(r.pos, "byte", "kdlegacy.method", meth))
+                r.u8()
+                level = r.b[r.pos]
+                fields.append(Field(r.pos, "byte", "kdlegacy.compression_level", level))
+                r.u8()
+                _count_field(r, fields, True, "kdlegacy.att_num_points")
+                if meth == 0:
+                    _count_field(r, fields, True, "kdfloat.version")
+                    fields.append(Field(r.pos, "byte", "kdfloat.method", r.b[r.pos]))
+                    r.u8()
+                    _count_field(r, fields, True, "kdfloat.quantization_bits")
+                    _count_field(r, fields, True, "kdfloat.range")
+                    _count_field(r, fields, True, "kdfloat.num_points")
+                    level = _count_field(r, fields, True, "kdfloat.compression_level")
+                _kd_payload(r, fields, ver, level)
                 return fields
             level = r.b[r.pos]
             fields.append(Field(r.pos, "byte", "kd.compression_level", level))
             r.u8()
-            _count_field(r, fields, True, "kd.bit_length")
-            _count_field(r, fields, True, "kd.num_points")
-            if level > 6:
-                return fields
-            if level >= 4:
-                for i in range(33):
-                    _bit_section(r, fields, "rans", ver, f"kd.numbers[{i}]")
-            elif level >= 2:
-                _bit_section(r, fields, "rans", ver, "kd.numbers")
-            else:
-                _bit_section(r, fields, "direct", ver, "kd.numbers")
-            _bit_section(r, fields, "direct", ver, "kd.remaining_bits")
-            o, size = _bit_section(r, fields, "direct", ver, "kd.axis")
-            fields.append(Field(o, "nibbles", "kd.axis.words", 0, size))
-            _bit_section(r, fields, "direct", ver, "kd.half")
+            _kd_payload(r, fields, ver, level)
             return fields
         if method == 0:
             nf = _count_field(r, fields, ver < 0x0202, "mesh.num_faces")
@@ -910,6 +969,11 @@ def stream_fields(data, trace=None):
                             _count_field(_Rd(b, o), fields, False, "eb." + k + ".size")
                         except IndexError:
                             pass
+                elif k == "valence_context_count":
+                    try:
+                        _count_field(_Rd(b, n - int(f[2])), fields, False, "eb.valence_context_count")
+                    except IndexError:
+                        pass
                 elif k == "events":
                     o = n - int(f[2])
                     try:
@@ -945,7 +1009,7 @@ def field_mutations(data, fields, exhaustive=False, max_nibbles=24):
                     x[f.off] = v
                     out.append(("field:" + f.name.split("[")[0], bytes(x)))
         elif f.kind in ("u32", "varint"):
-            vals = sorted({0, 1, 2, max(0, f.value - 1), f.value + 1, 2 * f.value, 0x7f, 0x80, 0xff, 0x100, 1 << 16, (1 << 31) - 1,
+            vals = sorted({0, 1, 2, max(0, f.value - 1), f.value + 1, 2 * f.value, 0x7f, 0x80, 0xff, 0x100, 1 << 16, 1000000, 1 << 24, (1 << 31) - 1,
                            1 << 31, (1 << 32) - 1, (1 << 32) - 4, 0x7ffffffc, len(data), len(data) + 1})
             for v in vals:
                 if v == f.value:
@@ -1056,6 +1120,127 @@ def structured_bases(rng, n_each):
     return streams
 
 
+def legacy_kd_bases(rng, n):
+    """valid legacy (bitstream 2.0 .. 2.2) kd-tree point clouds assembled by the harness op `legacykd` from the
+    library's own tree encoders; only streams that decode to the input points on the tree under test are kept"""
+    lines = []
+    for i in range(n):
+        if i % 2 == 0:
+            level = rng.randint(0, 6)
+            minor = 2 if level >= 2 else rng.choice([0, 1, 2])     # rANS section sizes are varints only since 2.2
+            dim = rng.choice([1, 2, 3, 3, 4])
+            bl = rng.choice([0, 1, 4, 8, 16])
+            npts = rng.choice([1, 4, 8, 30, 70, 100])
+            coords = ",".join(str(rng.randrange(1 << bl) if bl else 0) for _ in range(npts * dim))
+            lines.append(f"legacykd int {minor} {level} {dim} {bl} {coords}")
+        else:
+            npts = rng.choice([1, 3, 8, 30, 80])
+            q = rng.choice([4, 8, 11, 14])
+            bits = ",".join(str(G.f32_bits(G.f32(rng.random() * rng.choice([1.0, 10.0, 1000.0]) - 3.0))) for _ in range(3 * npts))
+            lines.append(f"legacykd float 2 {q} {bits}")
+    outs = run_encoder(lines, "legacykd")
+    if outs is None:
+        return None
+    res = []
+    for l, o in zip(lines, outs):
+        if o.startswith("ok "):
+            fam = "legacy_kd_" + l.split()[1]
+            res.append(Stream("struct:" + fam, bytes.fromhex(o.split()[1]), False, fam, [0]))
+    return res
+
+
+def splice_decoders(streams):
+    """One point cloud stream with several attributes decoders out of single-decoder point cloud streams of the same
+    class (sequential or kd-tree 2.3), version and number of points: num_attributes_decoders = k, then the descriptor
+    blocks of all decoders, then their payloads (PointCloudDecoder::DecodePointAttributes reads all
+    DecodeAttributesDecoderData blocks first). Unique ids are renumbered. None when the layouts do not allow it."""
+    parts = []
+    for s in streams:
+        b = s.data
+        if len(b) < 17 or b[7] != 0 or b[9] | b[10] << 8 or b[15] != 1:
+            return None
+        try:
+            r = _Rd(b, 16)
+            fs = []
+            _att_descs(r, fs, b[5] << 8 | b[6], "att")
+            desc_end = r.pos
+            if b[8] == 0:       # sequential: one decoder type per attribute belongs to the decoder data
+                natt = next(f.value for f in fs if f.name == "att.num_attributes")
+                desc_end += natt
+        except (IndexError, StopIteration):
+            return None
+        parts.append((bytearray(b[16:desc_end]), b[desc_end:], fs))
+    b0 = streams[0].data
+    if any(s.data[:15] != b0[:15] for s in streams):
+        return None
+    uid = 0
+    for desc, _, fs in parts:
+        for f in fs:
+            if f.name == "att.unique_id":
+                if f.length != 1 or uid > 127:
+                    return None
+                desc[f.off - 16] = uid
+                uid += 1
+    return b0[:15] + bytes([len(parts)]) + b"".join(bytes(d) for d, _, _ in parts) + b"".join(p for _, p, _ in parts)
+
+
+def spliced_bases(rng, n):
+    """valid kd-tree 2.3 and sequential point clouds with 2 or 3 attributes decoders (the encoder never writes them)"""
+    lines, metas = [], []
+    for i in range(n):
+        k = rng.choice([2, 2, 3])
+        npts = rng.choice([3, 8, 20, 70])
+        method = i % 2      # 0 sequential, 1 kd-tree
+        group = []
+        for j in range(k):
+            dt = rng.choice(["u32", "u16", "u8"] if method else ["u32", "u8", "i16", "f32"])
+            c = rng.randint(1, 3)
+            t = G.POSITION if j == 0 else rng.choice([G.GENERIC, G.COLOR])
+            a = G.Attr(t, G.DT[dt], c, False, j, npts, None, G.make_values(rng, G.DT[dt], c, npts, style="small" if dt != "f32" else None))
+            g = G.Geom(False, npts, [], [a])
+            group.append(len(lines))
+            lines.append(f"enc method={method} speed=5,5 -- " + g.to_text())
+        metas.append((method, group))
+    outs = run_encoder(lines, "encsplice")
+    if outs is None:
+        return None
+    res = []
+    for method, group in metas:
+        ss = []
+        for gi in group:
+            if not outs[gi].startswith("ok "):
+                break
+            ss.append(Stream("part", bytes.fromhex(outs[gi].split()[1]), False, "part", [0]))
+        if len(ss) != len(group):
+            continue
+        data = splice_decoders(ss)
+        if data is not None:
+            fam = ("spliced_kd" if method else "spliced_seq") + str(len(ss))
+            res.append(Stream("struct:" + fam, data, False, fam, [0, 2, 4]))
+    return res
+
+
+def valence_bases(rng, n):
+    """Edgebreaker streams coded with the valence traversal (expert option edgebreaker_method = 2)"""
+    from . import ebcases
+    lines, geoms = [], []
+    topos = [t for t in ebcases.topologies(rng, "quick") if 4 <= len(t[1][1]) <= 60]
+    for _ in range(n):
+        name, topo = rng.choice(topos)
+        g = ebcases.build(rng, topo, rng.choice([e for _, e in ebcases.ATT_SETS]), pos_dtype=rng.choice(["f32", "i16"]))
+        toks, _ = ebcases.options(rng, g, speed=rng.choice([0, 3, 5, 7]), submethod=2)
+        lines.append("enc " + " ".join(t for t in toks if not t.startswith(("track", "skip"))) + " -- " + g.to_text())
+        geoms.append(g)
+    outs = run_encoder(lines, "encval")
+    if outs is None:
+        return None
+    res = []
+    for g, o in zip(geoms, outs):
+        if o.startswith("ok ") and len(o.split()[1]) <= 6000:
+            res.append(Stream("struct:valence_eb", bytes.fromhex(o.split()[1]), True, "valence_eb", sorted({a.att_type for a in g.atts})))
+    return res
+
+
 def model_traces(streams):
     """`ebtrace` output of the Lean driver for the Edgebreaker streams (None when the driver is unavailable)"""
     from vlib import leanside
@@ -1080,9 +1265,12 @@ def model_traces(streams):
 def structured_cases(rng, tier, flavour, oracles, streams=None, n_each=None, per_stream=None):
     """field-level corruption of every located small-integer field of the structured base streams (and of `streams`)"""
     thorough = tier == "thorough"
-    bases = structured_bases(rng, n_each or (10 if thorough else 3))
+    ne = n_each or (10 if thorough else 3)
+    bases = structured_bases(rng, ne)
     if bases is None:
         return []
+    for extra in (legacy_kd_bases(rng, 2 * ne), spliced_bases(rng, 2 * ne), valence_bases(rng, ne)):
+        bases += extra or []
     bases = bases + list(streams or [])
     traces = model_traces(bases)
     out = []
